@@ -53,6 +53,44 @@ def run(ctx):
     with res.guard("E-PURE of linalg.binary_incidence_matrix"):
         bi = ctx.require("linalg.binary_incidence_matrix")
         check_pure(ctx, eff, res, "linalg.binary_incidence_matrix", roots=(bi.params[0].arg,))
+    # ---- M-MAPCONST: no matrix builder hands back a CONSTANT mapping / a matrix of constant shape: the mapping is a bijection
+    #      onto the nodes of the hypergraph (kept isolated nodes included), so it is empty only for a hypergraph without nodes
+    with res.guard("M-MAPCONST"):
+        res.rules["M-MAPCONST"] = "no matrix builder returns a literal empty mapping / a matrix of literal shape unless the path is taken only for a hypergraph without nodes"
+        n_ret = 0
+        for q_, g_ in sorted(ctx.prog.functions.items()):
+            if g_.module.relpath not in ("hypergraphx/linalg/linalg.py",) and not (g_.module.relpath.startswith("hypergraphx/linalg/_")):
+                continue
+            if g_.cls is not None or g_.parent is not None or g_.name.startswith("_"):
+                continue
+            pn = [a.arg for a in g_.params]
+            if not pn or pn[0] not in ("hypergraph", "temporal_hypergraph", "HG", "hg", "h"):
+                continue
+            mv = ctx.view(g_)
+            for r in walk_no_nested(g_.node):
+                if not (isinstance(r, ast.Return) and r.value is not None):
+                    continue
+                n_ret += 1
+                e = mv.inline(r.value, depth=2)
+                parts = e.elts if isinstance(e, ast.Tuple) else [e]
+                const_map = [p_ for p_ in parts if (isinstance(p_, ast.Dict) and not p_.keys) or (isinstance(p_, ast.Call) and norm(p_.func) == "dict" and not p_.args and not p_.keywords)]
+                const_mat = [p_ for p_ in parts if isinstance(p_, ast.Call) and p_.args and isinstance(p_.args[0], ast.Tuple) and p_.args[0].elts and all(isinstance(x, ast.Constant) and isinstance(x.value, int) for x in p_.args[0].elts) and any(t_ in norm(p_.func) for t_ in ("csr_", "csc_", "coo_", "zeros", "empty", "lil_"))]
+                if not const_map and not const_mat:
+                    continue
+                # legitimate only under a test that the hypergraph has no nodes
+                rid = mv.cfg_id(r)
+                guarded = False
+                for iff in walk_no_nested(g_.node):
+                    if isinstance(iff, ast.If):
+                        t_i = norm(mv.inline(iff.test))
+                        tid = mv.cfg.by_ast.get(id(iff.test))
+                        if ("num_nodes" in t_i or "get_nodes" in t_i) and tid is not None and any(mv.cfg.branch_dominated(tid, lab, rid) for lab in ("T", "F")):
+                            guarded = True
+                what = "an empty mapping" if const_map else "a matrix of literal shape"
+                res.add("M-MAPCONST", g_.short, norm(r)[:120], "constant-result", "unknown" if guarded else "violation", "" if guarded else f"{what} is returned on a path that does not depend on the hypergraph having no nodes: with isolated nodes kept the rows / the mapping must cover all N nodes (an absent order gives an N x N zero matrix, not a 0 x 0 one)", loc(g_, r))
+        if n_ret == 0:
+            raise AnalysisError("linalg: no matrix builder found (anchor vanished)")
+        res.ok("M-MAPCONST", "linalg", f"{n_ret} returns of matrix builders scanned", "scan", "hypergraphx/linalg/linalg.py")
     # ---- K-ENC
     with res.guard("K-ENC"):
         v = ctx.view("linalg.binary_incidence_matrix")
